@@ -23,6 +23,10 @@ def findMethodArgs : MethodL → Bytes → Option SchemaL
   | .nil, _ => none
   | .cons n _ _ _ args rest, name => if n = name then some args else findMethodArgs rest name
 
+def findMethodRet : MethodL → Bytes → Option Schema
+  | .nil, _ => none
+  | .cons n ret _ _ _ rest, name => if n = name then some ret else findMethodRet rest name
+
 mutual
 def diff : Schema → Schema → Bool → DiffR
   | .struct _ _ _ fa, .struct _ _ _ fb, _ => diffFieldsLen fa fb
@@ -72,14 +76,16 @@ def diffFieldsLen : SFieldL → SFieldL → DiffR
   | a, b => if a.length ≠ b.length then .differ else diffFields a b
 def diffDef : TraitDef → TraitDef → Bool → DiffR
   | .mk _ ma _ _, .mk _ mb _ _, rp => diffMethods ma mb rp
-/- for every method of `a` that `b` also has (by name): same argument count, arguments pairwise equal -/
+/- for every method of `a` that `b` also has (by name): same argument count, arguments pairwise equal, and the
+   same return type (compared as a return value: it may be a future) -/
 def diffMethods : MethodL → MethodL → Bool → DiffR
   | .nil, _, _ => .same
-  | .cons name _ _ _ args rest, mb, rp =>
+  | .cons name ret _ _ args rest, mb, rp =>
     DiffR.andThen
-      (match findMethodArgs mb name with
-       | none => DiffR.same
-       | some bargs => if args.length ≠ bargs.length then DiffR.differ else diffArgs args bargs rp)
+      (match findMethodArgs mb name, findMethodRet mb name with
+       | some bargs, some bret =>
+         if args.length ≠ bargs.length then DiffR.differ else (diffArgs args bargs rp).andThen (diff ret bret true)
+       | _, _ => DiffR.same)
       (diffMethods rest mb rp)
 def diffArgs : SchemaL → SchemaL → Bool → DiffR
   | .cons a ra, .cons b rb, rp => (diff a b rp).andThen (diffArgs ra rb rp)
